@@ -15,6 +15,24 @@ class UnparseError(Exception):
     pass
 
 
+KNOWN_FLAGS = {"is_const", "is_virtual", "is_shared_ptr", "is_ptr", "is_ref", "is_basic", "is_static"}
+
+
+def extra_flags(x):
+    """A tree that has learnt new keywords since this renderer was written records them, by the tree's own
+    convention, as `is_<keyword>` attributes: a true one is rendered as that keyword, so that a dialect
+    extension which DOES account for its tokens is not mistaken for one that drops them."""
+    out = []
+    try:
+        attrs = vars(x)
+    except TypeError:
+        return ""
+    for k in sorted(attrs):
+        if k.startswith("is_") and k not in KNOWN_FLAGS and attrs[k] is True:
+            out.append(k[3:])
+    return (" ".join(out) + " ") if out else ""
+
+
 def typename(tn):
     s = "::".join(list(tn.namespaces) + [str(tn.name)])
     insts = getattr(tn, "instantiations", None)
@@ -81,13 +99,13 @@ def node(x):
             s += ": " + (ctype(pc) if isinstance(pc, (P.TemplatedType, P.Type)) else typename(pc)) + " "
         members = []
         for c in x.ctors:
-            members.append("%s%s ( %s ) ;" % (template(c.template), c.name, args(c.args)))
+            members.append("%s%s%s ( %s ) ;" % (extra_flags(c), template(c.template), c.name, args(c.args)))
         for m in x.methods:
-            members.append("%s%s %s ( %s ) %s;" % (template(m.template), ret(m.return_type), m.name,
-                                                   args(m.args), "const " if m.is_const else ""))
+            members.append("%s%s %s ( %s ) %s%s;" % (template(m.template), ret(m.return_type), m.name,
+                                                     args(m.args), "const " if m.is_const else "", extra_flags(m)))
         for m in x.static_methods:
-            members.append("%sstatic %s %s ( %s ) ;" % (template(m.template), ret(m.return_type), m.name,
-                                                         args(m.args)))
+            members.append("%sstatic %s %s ( %s ) %s;" % (template(m.template), ret(m.return_type), m.name,
+                                                           args(m.args), extra_flags(m)))
         for d in x.dunder_methods:
             members.append("__%s__ ( %s ) ;" % (d.name, args(d.args)))
         for p in x.properties:
@@ -103,7 +121,7 @@ def node(x):
     if isinstance(x, P.Variable):
         return variable(x)
     if isinstance(x, P.GlobalFunction):
-        return "%s%s %s ( %s ) ;" % (template(x.template), ret(x.return_type), x.name, args(x.args))
+        return "%s%s %s ( %s ) %s;" % (template(x.template), ret(x.return_type), x.name, args(x.args), extra_flags(x))
     if isinstance(x, P.Include):
         # on a line of its own: the header is copied verbatim and may (after a corruption that glued an
         # unterminated include to the following text) contain a `//` -- the lexer must not take the rest
